@@ -11,5 +11,9 @@ MCRules == { <<Ru(<<"app","public">>, FALSE, NoList), Ru(<<"app">>, TRUE, NoList
              <<Ru(<<"app","public">>, FALSE, NoList), Ru(<<>>, TRUE, List({"c1","c2"}))>>,
              <<Ru(<<"app">>, FALSE, NoList), Ru(<<>>, TRUE, NoList)>>,
              <<Ru(<<"app">>, TRUE, List({"c1"})), Ru(<<"app-x">>, TRUE, List({"c2"}))>>,
+             \* rules for the location of an index file: what a request for the directory delivers
+             <<Ru(<<"app","index.gmi">>, TRUE, List({"c1"})), Ru(<<"app">>, TRUE, NoList)>>,
+             <<Ru(<<"index.gmi">>, TRUE, List({}))>>,
+             <<Ru(<<"admin","index.gmi">>, TRUE, NoList)>>,
              <<>> }
 ====
